@@ -125,7 +125,10 @@ class Engine:
         if not self.roots:
             return False
         src = self.roots[ri % len(self.roots)]
-        j = json.loads(metapype_io.to_json(src))
+        ok, text = self.call("to_json", lambda: metapype_io.to_json(src))
+        if not ok:
+            return True
+        j = json.loads(text)
         ids = []
         counter = [0]
 
